@@ -66,7 +66,8 @@ def report_json(desc):
             accs.append({'name': aname, 'kind': kind, 'datainfo': canonj(di),
                          'readonly': ad.get('readonly') if kind == 'param' else None,
                          'constant': canonj(ad['constant']) if 'constant' in ad else None,
-                         'props': [[k, canonj(v)] for k, v in ad.items() if k not in ('datainfo', 'readonly', 'constant')]})
+                         'props': [[k, canonj(v)] for k, v in ad.items() if k not in ('datainfo', 'readonly', 'constant')],
+                         'argument': (di.get('argument') is not None) if kind == 'command' else None})
         mods.append({'name': mname, 'accs': accs,
                      'props': [[k, canonj(v)] for k, v in md.items() if k != 'accessibles']})
     return mods
@@ -82,6 +83,20 @@ def subs_state(node):
     d = node.dispatcher
     return (sorted((k, sorted(c.cid for c in v)) for k, v in d._subscriptions.items() if v),
             sorted(c.cid for c in d._active_connections))
+
+
+FALSY = [0, 0.0, False, '', [], {}]      # JSON values that are not null but false in Python
+
+
+def do_payloads(rng, kind, argspec):
+    """payloads of the `do` requests aimed at one name: for a command no payload, an 'empty' JSON value, a junk value and
+    (where the generator knows the argument datatype) a valid one and one from the boundary catalogue"""
+    if kind != 'command':
+        return [rng.choice([None, None, 1, 0])]
+    out = [None, rng.choice(FALSY), rng.choice(c04.JUNK)]
+    if argspec is not None:
+        out += [c04.gen_valid(rng, argspec), c04.gen_payload(rng, argspec)[0]]
+    return out
 
 
 def sweep_steps(rng, node, nodespec):
@@ -103,15 +118,16 @@ def sweep_steps(rng, node, nodespec):
                 spec = '%s:%s' % (mname, name)
                 for rk in ('change', 'read', 'do'):
                     if rk == 'change':
-                        data = c04.gen_payload(rng, dtspec if kind == 'param' else None)[0] if rng.random() < 0.3 else (
-                            c04.gen_valid(rng, dtspec) if (kind == 'param' and dtspec) else rng.choice(c04.JUNK))
+                        datas = [c04.gen_payload(rng, dtspec if kind == 'param' else None)[0] if rng.random() < 0.3 else (
+                            c04.gen_valid(rng, dtspec) if (kind == 'param' and dtspec) else rng.choice(c04.JUNK))]
                     elif rk == 'do':
-                        data = None if (kind != 'command' or dtspec is None or rng.random() < 0.2) else c04.gen_valid(rng, dtspec)
+                        datas = do_payloads(rng, kind, dtspec)
                     else:
-                        data = None
-                    steps.append({'kind': rk, 'spec': spec, 'data': data,
-                                  'script': rng.choice(['none', 'value_valid', 'value_valid', 'raise_secop']),
-                                  'seed': rng.randrange(1 << 30)})
+                        datas = [None]
+                    for data in datas:
+                        steps.append({'kind': rk, 'spec': spec, 'data': data,
+                                      'script': rng.choice(['none', 'value_valid', 'value_valid', 'raise_secop']),
+                                      'seed': rng.randrange(1 << 30)})
                 acts.append((mname, name))
         acts.append((mname, None))
     # faults inside the module: it assigns values its own datatype refuses (wrong kind, out of range, too long, NaN),
@@ -131,6 +147,80 @@ def sweep_steps(rng, node, nodespec):
     acts.append(('zz', None))
     acts.append(('zz', 'value'))
     return steps, acts
+
+
+def prop_ser(po, val):
+    """a property value: [canonical form of the Python value (what `val != po.default` compares), the text
+    exportProperties would put into the report]"""
+    key = canon(val)
+    try:
+        val = po.datatype.export_value(val)
+    except AttributeError:
+        pass
+    return [key, canonj(val)]
+
+
+def module_init(mycls, mcfg):
+    """what Module.__init__ starts from, as data for the model: the declared properties of the class, class-level values,
+    the configuration entries (values validated by the property's datatype, serialised), the qualified class name"""
+    from frappy.properties import UNSET
+    decls, preset, cfg = [], [], []
+    for pn, po in mycls.propertyDict.items():
+        decls.append([pn, po.extname or '', bool(po.export), po.export == 'always'] + prop_ser(po, po.default))
+        if po.value is not UNSET:
+            preset.append([pn] + prop_ser(po, po.value))
+        value = mcfg.get(pn)
+        if isinstance(value, dict):
+            value = value.get('value')
+        if value is not None:
+            cfg.append([pn] + prop_ser(po, po.datatype.validate(value)))
+    return {'decls': decls, 'preset': preset, 'cfg': cfg, 'impl': f'{mycls.__module__}.{mycls.__name__}'}
+
+
+def add_inits(node, rec, cfgs):
+    """attach `init` to every module of the node JSON (cfgs: module name -> its configuration dict)"""
+    for mj in rec['node']['modules']:
+        modobj = node.secnode.modules[mj['name']]
+        mycls, = type(modobj).__bases__
+        try:
+            # a module that is not in the configuration (made by a Pinata): its configuration is not known here
+            mj['init'] = module_init(mycls, cfgs[mj['name']]) if mj['name'] in cfgs else None
+        except Exception:
+            mj['init'] = None      # a property value the harness cannot serialise: the property list stays data
+
+
+def generated_cfgs(nodespec):
+    """the module configurations c04.build_node makes from a node spec, as far as module properties are concerned"""
+    cfgs = {}
+    for ms in nodespec['modules']:
+        mcfg = {'description': 'generated module ' + ms['name']}
+        if not ms['exported']:
+            mcfg['export'] = False
+        for attr, over in ms['cfg'].items():
+            mcfg[attr] = dict(over)
+        cfgs[ms['name']] = mcfg
+    return cfgs
+
+
+def do_client_verdicts(desc, steps, rec):
+    """for every `do` with a payload aimed at a command described WITH an argument: does the argument datatype a client
+    rebuilds from the described datainfo import + validate the payload?  (computed by the real datatype code; judged in Lean)"""
+    from frappy.datatypes import get_datatype
+    for st, out in zip(steps, rec['steps']):
+        if st['kind'] != 'do' or st['data'] is None or not st['spec'] or ':' not in st['spec']:
+            continue
+        m, a = st['spec'].split(':', 1)
+        ad = desc['modules'].get(m, {}).get('accessibles', {}).get(a)
+        di = ad.get('datainfo') if ad else None
+        if not (isinstance(di, dict) and di.get('type') == 'command' and di.get('argument') is not None):
+            continue
+        try:
+            arg = get_datatype(json.loads(json.dumps(di)), a).argument
+        except Exception:
+            out['client'] = False
+            continue
+        payload = json.loads(json.dumps(st['data']))
+        out['client'] = c04.oracle_call(lambda: arg.validate(arg.import_value(payload)))[0] == 'ok'
 
 
 def client_verdicts(rng, node, desc, nodespec, rec):
@@ -211,7 +301,7 @@ def strict_json(desc):
         return False
 
 
-def run_node(rng, node, box, nodespec, classes):
+def run_node(rng, node, box, nodespec, classes, cfgs=None):
     """-> dict for the driver, or {'errors': ...}"""
     desc1 = node.describe()
     strict = strict_json(desc1)
@@ -221,7 +311,9 @@ def run_node(rng, node, box, nodespec, classes):
     if nodespec is not None:
         rec = run_steps_on(node, box, nodespec, classes, steps)
     else:
-        rec = run_steps_plain(node, steps)
+        rec, steps = run_steps_plain(node, steps)
+    add_inits(node, rec, generated_cfgs(nodespec) if nodespec is not None else (cfgs or {}))
+    do_client_verdicts(desc1, steps, rec)
     activates = []
     for m, a in acts:
         conn = node.connect()
@@ -235,7 +327,8 @@ def run_node(rng, node, box, nodespec, classes):
         node.disconnect(conn)
     dichecks, imports = client_verdicts(rng, node, desc1, nodespec, rec)
     desc2 = node.describe()
-    classes = [{'m': mname, 'ic': list(md.get('interface_classes', [])), 'features': list(md.get('features', []))}
+    classes = [{'m': mname, 'ic': list(md.get('interface_classes', [])), 'features': list(md.get('features', [])),
+                'impl': md.get('implementation')}
                for mname, md in desc1['modules'].items()]
     return {'rec': rec, 'classes': classes, 'report1': rep1, 'report2': report_json(desc2), 'activates': activates,
             'dichecks': dichecks, 'imports': imports, 'strict': strict}
@@ -272,18 +365,24 @@ def with_timeout(seconds, func):
 
 def run_steps_plain(node, steps):
     """shipped configuration: only requests that must not reach a driver are sent (undescribed names, changes of
-    parameters described read-only, reads of constants); calls are not observed"""
+    parameters described read-only, reads of constants, requests of the wrong kind — change / read of a command, do of a
+    parameter —, do with a payload for a command described without argument); calls are not observed.
+    -> (record, the steps actually sent)"""
     desc = node.describe()
     conn = node.connect()
-    out = []
+    out, sent = [], []
     for st in steps:
         m, _, a = st['spec'].partition(':')
         ad = desc['modules'].get(m, {}).get('accessibles', {}).get(a) if a else None
         described = ad is not None
         if described:
-            if st['kind'] == 'change' and ad.get('readonly') is True:
+            di = ad.get('datainfo')
+            is_cmd = isinstance(di, dict) and di.get('type') == 'command'
+            if st['kind'] == 'change' and (ad.get('readonly') is True or is_cmd):
                 pass
-            elif st['kind'] == 'read' and 'constant' in ad:
+            elif st['kind'] == 'read' and ('constant' in ad or is_cmd):
+                pass
+            elif st['kind'] == 'do' and (not is_cmd or (st['data'] is not None and di.get('argument') is None)):
                 pass
             else:
                 continue
@@ -299,6 +398,7 @@ def run_steps_plain(node, steps):
             raise RuntimeError(f'request {st["kind"]} {st["spec"]} on a shipped configuration did not return within 30 s')
         data = st['data']
         wire = canonj(data) if st['kind'] == 'change' else (None if data is None else canonj(data)) if st['kind'] == 'do' else bool(data)
+        sent.append(st)
         out.append({'req': [st['kind'], st['spec'], wire], 'drv': 'none',
                     'obs': {'reply': c04.reply_obs(reply), 'calls': [], 'emits': [c04.msg_obs(x) for x in conn.msgs],
                             'before': before, 'after': c04.cache_rows(node)},
@@ -307,7 +407,7 @@ def run_steps_plain(node, steps):
         if timed_out:
             break
     nj = c04.node_json(node, None, None)
-    return {'node': nj, 'steps': out, 'oracle': c04.Oracle().json(), 'errors': []}
+    return {'node': nj, 'steps': out, 'oracle': c04.Oracle().json(), 'errors': []}, sent
 
 
 def shipped_nodes(ctx):
@@ -327,7 +427,7 @@ def shipped_nodes(ctx):
             if node.errors or not node.secnode.modules:
                 skipped.append(name)
                 continue
-            res.append((name, node))
+            res.append((name, node, mods))
         except BaseException:  # import errors, SystemExit of platform checks, ...
             skipped.append(name)
     return res, skipped
@@ -338,16 +438,43 @@ def to_requests(data):
     base = {'p': PID, 'node': rec['node'], 'oracle': rec['oracle']}
     return [dict(base, k='describe'),
             dict(base, k='judge', report1=data['report1'], report2=data['report2'], classes=data['classes'],
-                 steps=[{'req': s['req'], 'obs': s['obs']} for s in rec['steps']],
+                 steps=[{'req': s['req'], 'obs': s['obs'], 'client': s.get('client', False)} for s in rec['steps']],
                  activates=[{'m': a['m'], 'a': a['a'], 'reply': a['reply'], 'subsChanged': a['subsChanged']}
                             for a in data['activates'] if not a['bare']],
                  dichecks=[{'m': d['m'], 'a': d['a'], 'client': d['client'], 'node': d['node']} for d in data['dichecks']],
                  imports=[{'m': d['m'], 'a': d['a'], 'ok': d['ok']} for d in data['imports']])]
 
 
+# module properties a configuration may give (modulebase.py: "only the properties predefined here are allowed to be set in
+# the cfg file" — the loop over propertyDict accepts EVERY declared property, the automatic ones included): name -> values
+MODULE_PROP_CFG = {
+    'group': ['grpA', 'grpB', ''],
+    'visibility': ['advanced', 'expert', 'user', 2],
+    'meaning': [('temperature', 10), ['x', 0], ('', 0)],
+    'description': ['configured description'],
+    'original_id': ['orig-7'],
+    'slowinterval': [30.0],
+    'implementation': ['frappy.core.Drivable', 'other.Cls', ''],
+    'interface_classes': [['Drivable'], [], ['Readable'], ['Readable', 'Drivable'], ['Magnet']],
+    'features': [['HasOffset'], [], ['FeatA'], ['FeatB', 'HasOffset']],
+}
+
+
+def gen_module_props(rng, nodespec):
+    """configuration entries naming MODULE PROPERTIES (the way frappy.config.Mod writes them: {'value': x}), added to the
+    parameter overrides the node generator makes"""
+    for ms in nodespec['modules']:
+        if rng.random() < 0.5:
+            continue
+        for key in rng.sample(sorted(MODULE_PROP_CFG), rng.randint(1, 3)):
+            ms['cfg'][key] = {'value': rng.choice(MODULE_PROP_CFG[key])}
+    return nodespec
+
+
 def gen_case(seed, big):
     rng = random.Random(seed)
-    return {'seed': seed, 'big': big, 'nodespec': c04.gen_nodespec(rng, big)}
+    nodespec = c04.gen_nodespec(rng, big)
+    return {'seed': seed, 'big': big, 'nodespec': gen_module_props(random.Random(seed + 7), nodespec)}
 
 
 def run_generated(case):
@@ -390,7 +517,11 @@ def evaluate(ctx, res, label, case, data, model, judge):
         mm = [(a, b) for a, b in zip(norm_report(model['report']), norm_report(data['report1'])) if a != b][:1]
         res.disagreements.append({'case': case, 'model': mm[0][0] if mm else [m['name'] for m in model['report']],
                                   'impl': mm[0][1] if mm else [m['name'] for m in data['report1']]})
-    if ctx.model_ok and model.get('classes') != data['classes']:
+    mcls = model.get('classes') or []
+    if any(c.get('impl') is None for c in mcls):      # no `init` for that module: the model has no class name to offer
+        mcls = [dict(c, impl=d.get('impl')) if c.get('impl') is None else c for c, d in zip(mcls, data['classes'])] \
+            if len(mcls) == len(data['classes']) else mcls
+    if ctx.model_ok and mcls != data['classes']:
         res.disagreements.append({'case': case, 'model': model.get('classes'), 'impl': data['classes']})
     for c in data['classes']:
         res.count('interface_class.' + (c['ic'][0] if c['ic'] else 'none'))
@@ -399,7 +530,7 @@ def evaluate(ctx, res, label, case, data, model, judge):
     if judge['bad'] is not None:
         what, idx, name = judge['bad']
         detail = None
-        if what in ('undescribed-reachable', 'flag-not-honoured', 'constant-not-read'):
+        if what in ('undescribed-reachable', 'flag-not-honoured', 'constant-not-read', 'command-datainfo-not-honoured', 'other'):
             probes = [s for s in rec['steps'] if s['req'][0] != 'read' or not s['req'][2]]
             st = rec['steps'][idx] if idx < len(rec['steps']) else None
             detail = None if st is None else {'req': st['req'], 'reply': st['obs']['reply'], 'calls': st['obs']['calls'],
@@ -407,6 +538,10 @@ def evaluate(ctx, res, label, case, data, model, judge):
         elif what == 'undescribed-subscribed':
             acts = [a for a in data['activates'] if not a['bare']]
             detail = acts[idx] if idx < len(acts) else None
+        elif what == 'class-props':
+            detail = {'described': next((c for c in data['classes'] if c['m'] == name), None),
+                      'class chain': next((m.get('mro') for m in rec['node']['modules'] if m['name'] == name), None),
+                      'configuration': next(((m.get('init') or {}).get('cfg') for m in rec['node']['modules'] if m['name'] == name), None)}
         elif what == 'datainfo-disagrees':
             detail = data['dichecks'][idx]
         elif what == 'emitted-not-importable':
@@ -440,9 +575,9 @@ def run(ctx):
         items.append(('gen-%d' % case['seed'], {'kind': 'generated', 'seed': case['seed'], 'big': case['big']}, data))
     nodes, skipped = shipped_nodes(ctx)
     res.notes.append('shipped configurations run: %s; skipped (do not instantiate here): %s'
-                     % ([n for n, _ in nodes], skipped))
-    for name, node in nodes:
-        data = run_node(random.Random(name), node, None, None, None)
+                     % ([n for n, _, _ in nodes], skipped))
+    for name, node, mods in nodes:
+        data = run_node(random.Random(name), node, None, None, None, cfgs=mods)
         items.append(('cfg-' + name, {'kind': 'cfg', 'name': name}, data))
         res.count('shipped-cfg')
     reqs = []
@@ -462,8 +597,8 @@ def replay(ctx, rp):
         data = run_generated(gen_case(case['seed'], case['big']))
     else:
         nodes, _ = shipped_nodes(ctx)
-        node = dict(nodes)[case['name']]
-        data = run_node(random.Random(case['name']), node, None, None, None)
+        node, mods = {n: (nd, ms) for n, nd, ms in nodes}[case['name']]
+        data = run_node(random.Random(case['name']), node, None, None, None, cfgs=mods)
     if data is None:
         print('node rejected by frappy')
         return 2
